@@ -429,6 +429,47 @@ fn io_kind<X>(r: &std::io::Result<X>) -> Option<String> {
     r.as_ref().err().map(|e| format!("Err:{:?}", e.kind()))
 }
 
+/// bgzf::io::Reader::read_exact across block boundaries: noodles' default_read_exact over a reader
+/// (the BGZF reader itself) whose read() is short at every block end.  args: payload, block payload
+/// sizes, read sizes.  obs: per call the bytes (Ok) or the error kind.
+fn run_bxe(c: &Case) -> Obs {
+    let payload = c.b(0);
+    let blocks = parse_sizes(&c.args[1]);
+    let sizes = parse_sizes(&c.args[2]);
+    let mut breaks = Vec::new();
+    let mut at = 0;
+    for b in &blocks {
+        at += b;
+        breaks.push(at.min(payload.len()));
+    }
+    let file = files::bgzip(&payload, &breaks, true);
+    let mut r = noodles_bgzf::io::Reader::new(&file[..]);
+    let mut out = Vec::new();
+    let mut pos = 0usize;
+    let mut exp = Vec::new();
+    for &n in &sizes {
+        let mut buf = vec![0u8; n];
+        let res = r.read_exact(&mut buf);
+        match &res {
+            Ok(()) => out.push(format!("{}:Ok", hex(&buf))),
+            Err(e) => out.push(format!("_:Err:{:?}", e.kind())),
+        }
+        if n <= payload.len() - pos {
+            exp.push(format!("{}:Ok", hex(&payload[pos..pos + n])));
+            pos += n;
+        } else {
+            exp.push("_:Err:UnexpectedEof".to_string());
+            pos = payload.len();
+        }
+    }
+    let obs = out.join(";");
+    let exp = exp.join(";");
+    if obs != exp {
+        return Obs::fail(obs, "bgzf-read-exact-block-layout-dependent", format!("expected {exp}"));
+    }
+    Obs::ok(obs, blocks.len() >= 2)
+}
+
 /// bam::io::Reader::from(src).read_record: read_exact_or_eof(4) / read_exact(n) / validate
 fn run_roe(c: &Case) -> Obs {
     let data = c.b(0);
@@ -803,7 +844,15 @@ fn generate(rng: &mut Rng, tier: &str, w: &mut CaseWriter) {
             data.extend(body);
         }
         match rng.below(6) {
-            0 => data.extend(rbytes(rng, 1, 3)), // partial length field
+            0 => {
+                // partial length field (sometimes all zero: then only the partial/nothing distinction
+                // tells it from a clean end)
+                let mut p = rbytes(rng, 1, 3);
+                if rng.chance(1, 2) {
+                    p.iter_mut().for_each(|b| *b = 0);
+                }
+                data.extend(p)
+            }
             1 => {
                 // length field promising more than is there
                 let have = rng.below(40) as usize;
@@ -815,6 +864,18 @@ fn generate(rng: &mut Rng, tier: &str, w: &mut CaseWriter) {
         }
         let script = random_script(rng, data.len(), true);
         w.push("roe", vec![hex(&data), fmt_script(&script)]);
+    }
+    // ---- L2: bgzf read_exact across tiny blocks (default_read_exact; block ends = short reads)
+    let n_bx = if thorough { 1500 } else { 150 };
+    for _ in 0..n_bx {
+        let len = rng.below(40) as usize;
+        let payload = rng.bytes(len);
+        let nb = rng.below(8);
+        let blocks: Vec<String> = (0..nb).map(|_| rng.below(6).to_string()).collect();
+        let ns = rng.range(1, 6);
+        let sizes: Vec<String> = (0..ns).map(|_| rng.below(len as u64 / 2 + 6).to_string()).collect();
+        let j = |v: Vec<String>| if v.is_empty() { "_".to_string() } else { v.join(",") };
+        w.push("bxe", vec![hex(&payload), j(blocks), j(sizes)]);
     }
     // ---- L2: bgzf frame reading
     const EOFB: [u8; 28] = [
@@ -915,6 +976,7 @@ fn run(c: &Case) -> Obs {
         "dlvi" => run_dlv(c, true),
         "rx" => run_rx(c, false),
         "rxb" => run_rx(c, true),
+        "bxe" => run_bxe(c),
         "roe" => run_roe(c),
         "frame" => run_frame(c),
         "ru" => run_ru(c),
